@@ -65,7 +65,7 @@ CANDIDATES = ['Water', 'Ethanol', 'Methanol', 'Propanol', 'Butanol', 'Benzene', 
               'Styrene', 'Isopropanol', 'Isobutanol', 'SO2', 'H2S', 'Argon', 'CO', 'H2', 'HCl', 'Acetonitrile',
               'Tetrahydrofuran', 'DMSO', 'EthyleneGlycol']
 XPHASES = [('l', 'g'), ('s', 'l'), ('s', 'l', 'g'), ('l', 'L'), ('L', 'g', 's'), ('g', 's'), ('l', 'L', 'g'), ('S', 'l')]
-RESET_KINDS = ('Tb', 'Tm', 'phase_ref', 'reset', 'cmf')
+RESET_KINDS = ('Tb', 'Tm', 'phase_ref', 'reset', 'cmf', 'methodR')
 LOCK_ROUTES = ['ctor', 'inplace', 'copy', 'copy', 'copyof', 'copyof-inplace', 'relock']
 LOCK_GRID_IDS = ['Water', 'Ethanol', 'CO2', 'Benzene', 'Glycerol']
 MIX_IDS = ['Water', 'Ethanol', 'Methanol', 'Glycerol', 'Propane', 'N2', 'Octanol', 'Benzene', 'CO2', 'AceticAcid', 'Hexane', 'Ammonia']
@@ -76,6 +76,7 @@ FE = None
 UNIVERSE = []            # IDs with complete data
 _CHEMS = {}              # cache of real chemicals by spec
 _MIX = {}
+_OLD_METHOD = {}
 _EDITS = {}           # id(chemical) -> (chemical, [(Sfus, Hfus, Tm before, Hfus, Tm, Sfus after), …]) for `set` chemicals
 _DEFAULT_REF = {}
 R = None
@@ -207,6 +208,8 @@ def get_chem(spec):
     """spec: tuple of tokens after `chem`."""
     nocache = any(tok.startswith(('Tref=', 'Href=')) for tok in spec)      # built under temporary reference conditions
     spec = tuple(tok for tok in spec if not tok.startswith(('Tref=', 'Href=')))
+    # a chemical whose spec ends with "evaluate, then switch": what is examined is the FIRST call afterwards → always fresh
+    nocache = nocache or spec[0] == 'switch' or any(tok.startswith('T0=') for tok in spec)
     key = tuple(spec)
     if key in _CHEMS and not nocache: return _CHEMS[key]
     kind = spec[0]
@@ -253,13 +256,23 @@ def get_chem(spec):
         # copy <ID> <ref> <variant> <subject A|B> <phase> <k>: B = A.copy(); then another heat-capacity method is selected for
         # ONE of the two (variant: none | orig-reset | copy-reset | copy-noreset); the subject is the chemical examined
         ID, ref, variant, subject, ph, k = spec[1], spec[2], spec[3], spec[4], spec[5], int(spec[6])
+        T0 = float(spec[7][3:]) if len(spec) > 7 and spec[7].startswith('T0=') else None
         A = tmo.Chemical(ID, phase_ref=ref, cache=False)
         B = A.copy(ID + '_copy')
         who = {'none': None, 'orig-reset': A, 'copy-reset': B, 'copy-noreset': B}[variant]
         if who is not None:
-            switch_cn_method(getattr(who.Cn, ph), k, who)
+            switch_cn_method(getattr(who.Cn, ph), k, who, T0)
             if variant != 'copy-noreset': who.reset_free_energies()
         c = A if subject == 'A' else B
+    elif kind == 'switch':
+        # switch <ID> <ref> <phase> <k> <T0> <reset|noreset>: Cn(phase, T0) is evaluated, another Cn method is selected through
+        # the `method` setter, [reset_free_energies()]; the chemical is then examined at exactly T0
+        ID, ref, ph, k, T0, how = spec[1], spec[2], spec[3], int(spec[4]), float(spec[5]), spec[6]
+        c = tmo.Chemical(ID, phase_ref=ref, cache=False)
+        try: c.Cn(ph, T0)
+        except Exception: pass
+        switch_cn_method(getattr(c.Cn, ph), k, c, T0)
+        if how == 'reset': c.reset_free_energies()
     elif kind == 'cmf':
         # cmf <ID> <ref> <OtherID> <names|auto>: Chemical.copy_models_from.  With an explicit name list (e.g. Cn, Hvap, Cn+Hvap,
         # V+Cn, V) the models of a bundled chemical are replaced by those of another one; `auto` fills a blank chemical that
@@ -306,10 +319,21 @@ def canon(ph):
     return {'L': 'l', 'S': 's'}.get(ph, ph)
 
 
-def switch_cn_method(Cn, k, chem):
+def switch_cn_method(Cn, k, chem, T0=None):
     """select another method of the heat-capacity object through the public `method` setter: the k-th (cyclically) of the
-    other available methods that evaluates and integrates between the reference temperatures; returns its name or None"""
+    other available methods that evaluates and integrates between the reference temperatures; returns its name or None.
+    With T0: the history is  Cn(T0) under the old method → `Cn.method = new`  with nothing in between, so that a later
+    call at exactly T0 is the first call after the switch."""
+    if T0 is not None:
+        m = switch_cn_method(Cn, k, chem)
+        if m is None: return None
+        Cn.method = chem_old = _OLD_METHOD.pop(id(Cn))
+        try: Cn(T0)
+        except Exception: pass
+        Cn.method = m
+        return m
     cur = Cn.method
+    _OLD_METHOD[id(Cn)] = cur
     others = sorted(m for m in Cn.all_methods if m != cur)
     bounds = [chem.T_ref] + [float(x) for x in (chem.Tm, chem.Tb) if x]
     for j in range(len(others)):
@@ -372,7 +396,7 @@ class Session:
         kind = spec[0] if spec else ''
         # (since fix C07-5 the Tm / Hfus setters keep a derived Sfus consistent: `set` chemicals are `auto` too unless the
         # user gave them an Sfus of their own first)
-        self.sfus_auto = kind in ('db', 'ctor', 'lock', 'copy') or (kind == 'cmf' and spec[4] != 'auto') or (kind == 'set' and not any(t.startswith('Sfus=') for t in spec))
+        self.sfus_auto = kind in ('db', 'ctor', 'lock', 'copy', 'switch') or (kind == 'cmf' and spec[4] != 'auto') or (kind == 'set' and not any(t.startswith('Sfus=') for t in spec))
         self.cns = cn_objects(c)
         self.sent = set()
         self.cnname = {id(o): 'Cn.' + p for p, o in self.cns.items()}
@@ -561,9 +585,21 @@ class Oracle:
         # the chemical's own heat capacity for that phase label, through the public handle
         cn = (lambda t: float(Cn(t))) if c.locked_state else (lambda t: float(c.Cn(ph, t)))
         try:
-            cn(T)
+            first = cn(T)                       # the first call at this temperature in this op
         except Exception:
             return
+        # Cn(phase, T) must be the value of the model that is selected NOW (the one H and S integrate): compare with the
+        # dependency's uncached evaluation of the same object
+        try:
+            cur = float(Cn.T_dependent_property(T))
+            self.count += 1
+            if not rel_ok(first, cur, cur, 1e-12):
+                self.fail(f'Cn:{ph}:not-the-current-model-value',
+                          f'Cn({ph!r}, {T}) = {first!r} but the selected method {Cn.method} gives {cur!r} at that temperature '
+                          f'(dH/dT there is {fd(lambda t: s.value("H", ph, t, P), T, h)!r})')
+                return
+        except Exception as e:
+            self.tags.append('oracle-skip:cn-current:' + type(e).__name__)
         a = s.bounds()[0]
         for kind, intm, expect, law in (('H', Cn.T_dependent_property_integral, cn, 'I'),
                                        ('S', Cn.T_dependent_property_integral_over_T, lambda t: cn(t) / t, 'J')):
@@ -949,6 +985,20 @@ def run_mixupd(t, emit, failures, tags, idx):
             {'s': 'g', 'l': 's', 'g': 'l'}[target.phase_ref]
         elif kind == 'reset':
             getattr(target.Cn, ph).add_method(20.0 + abs(amt) / 100.0 + step); target.reset_free_energies()
+        elif kind in ('method', 'methodR'):
+            # another heat-capacity method through the `method` setter, right after the mixture evaluated Cn at this very T
+            switch_cn_method(getattr(target.Cn, canon(ph)), int(abs(amt)) % 5, target, T)
+            if kind == 'methodR': target.reset_free_energies()
+            try:
+                got, cur = float(target.Cn(ph, T)), float(getattr(target.Cn, canon(ph)).T_dependent_property(T))
+                count += 1
+                if not rel_ok(got, cur, cur, 1e-12):
+                    failures.append({'signature': f'Cn:{ph}:not-the-current-model-value', 'op_index': idx(),
+                                     'what': f'{target.ID} in a mixture of {t[1]}: after `Cn.{canon(ph)}.method = '
+                                             f'{getattr(target.Cn, canon(ph)).method!r}` Cn({ph!r}, {T}) = {got!r} but the selected '
+                                             f'method gives {cur!r} (mixture.Cn and dH/dT use different heat capacities)'})
+            except Exception as e:
+                tags.append('mixupd-skip:method:' + type(e).__name__)
         elif kind == 'cmf':
             # Chemical.copy_models_from with an explicit name list: the heat capacities of another chemical
             other = tmo.Chemical('Methanol' if target.ID != 'Methanol' else 'Ethanol', cache=False)
@@ -1027,6 +1077,7 @@ def _run_ops(ops):
             sess = Session(get_chem(tuple(t[1:])), tuple(t[1:]))
             if any(tok.startswith('Tref=') for tok in t): tags.append('reference-conditions-varied')
             tags.append('chem:' + t[1] + ':' + (sess.c.locked_state and 'locked' or sess.c.phase_ref))
+            if t[1] == 'switch' or any(x.startswith('T0=') for x in t): tags.append('history:Cn(T0)-then-method-switch')
             if t[1] == 'cmf': tags.append('copy_models_from:' + t[5])
             if t[1] == 'copy': tags.append(f'copy-history:{t[4]}:{t[5]}')
             if t[1] == 'lock': tags.append('lock-route:' + (t[4] if len(t) > 4 else 'ctor') + ':' + t[3])
@@ -1285,6 +1336,7 @@ def coef(rng, none_ok=True):
 
 def gen_chem_case(rng):
     r = rng.random()
+    first_ops = []
     ID = rng.choice(UNIVERSE)
     ref = rng.choice('slg')
     if r < 0.34: spec = f'db {ID} {ref}'
@@ -1304,7 +1356,18 @@ def gen_chem_case(rng):
     elif r < 0.72:
         variant = rng.choice(['none', 'orig-reset', 'orig-reset', 'copy-reset', 'copy-noreset', 'copy-noreset'])
         subject = 'A' if variant == 'copy-reset' and rng.random() < 0.5 else 'B'
-        spec = f'copy {ID} {ref} {variant} {subject} {rng.choice("slg")} {rng.randrange(6)}'
+        sph = rng.choice('slg')
+        spec = f'copy {ID} {ref} {variant} {subject} {sph} {rng.randrange(6)}'
+        if variant != 'none' and rng.random() < 0.6:
+            # Cn is evaluated at T0 right before the method switch, and examined at exactly T0 afterwards
+            t0 = rnd_T(rng, get_chem(('db', ID, ref)), sph)
+            spec += f' T0={t0}'
+            first_ops = [f'o:deriv {sph} {t0} {rnd_P(rng)}']
+    elif r < 0.745:
+        sph = rng.choice('slg')
+        t0 = rnd_T(rng, get_chem(('db', ID, ref)), sph)
+        spec = f'switch {ID} {ref} {sph} {rng.randrange(6)} {t0} {rng.choice(["reset", "reset", "noreset"])}'
+        first_ops = [f'o:deriv {sph} {t0} {rnd_P(rng)}']
     elif r < 0.78:
         route = rng.choice(LOCK_ROUTES)
         spec = f'lock {ID} {rng.choice("slg")} {route}'
@@ -1333,6 +1396,7 @@ def gen_chem_case(rng):
         spec = f'db {ID} {ref}'
         ops = ['chem ' + spec]
         c = get_chem(tuple(spec.split(' ')))
+    ops += first_ops            # must be the first evaluation of Cn at that temperature after the history of the spec
     ops.append('wiring')
     phases = [c.locked_state] if c.locked_state else list('slg')
     for _ in range(rng.randrange(2, 6)):
@@ -1345,7 +1409,7 @@ def gen_chem_case(rng):
             T = round(c.Tc * rng.choice([0.8, 1.05, 1.3]), 1)
             ops.append(f'{rng.choice(["Hforce", "Sforce"])} {ph} {T} {rnd_P(rng)} {rng.choice("011")}')
     ops += oracle_ops(rng, c)
-    if spec.startswith('copy ') and ' copy-noreset ' in spec:
+    if (spec.startswith('copy ') and ' copy-noreset ' in spec) or (spec.startswith('switch ') and spec.endswith(' noreset')):
         # the method was switched WITHOUT reset_free_energies: the constants wired between T_ref, Tm, Tb are (legitimately)
         # those of the old method, so only what must hold regardless is examined: derivatives, reference state, aliases
         ops = [ops[0]] + [o for o in ops if o.startswith(('o:ref', 'o:deriv', 'o:alias'))]
@@ -1416,9 +1480,9 @@ def gen_mixupd_case(rng):
     if not n[j]: n[j] = 1.5                        # the updated chemical is present
     if rng.random() < 0.5:
         # a history of two or three edits after the mixture exists (the same setter twice included)
-        more = [rng.choice(['Tb', 'Tm', 'phase_ref', 'reset', 'cmf', 'Hfus', 'Cn', 'S0', kind]) for _ in range(rng.randrange(1, 3))]
+        more = [rng.choice(['Tb', 'Tm', 'phase_ref', 'reset', 'cmf', 'Hfus', 'Cn', 'S0', 'method', 'methodR', kind]) for _ in range(rng.randrange(1, 3))]
         kind = '+'.join([kind] + more)
-    elif rng.random() < 0.1: kind = 'cmf'
+    elif rng.random() < 0.25: kind = rng.choice(['cmf', 'method', 'methodR'])
     amount = rng.choice([500.0, -250.0, round(rng.uniform(100, 5000), 1)])
     k = rng.choice([2.0, 0.5, 3.5])
     return Case([f'mixupd {",".join(ids)} {ph} {T} {P} {",".join(map(repr, n))} {kind} {j} {amount} {k}'], {})
@@ -1499,6 +1563,10 @@ def corpus():
               'o:deriv l 320.0 101325.0', 'o:jumpTb']),
         Case(['chem copy Ethanol l copy-noreset B l 1', 'o:ref', 'o:deriv l 320.0 101325.0']),
         Case(['chem copy Water g copy-reset A g 0', 'wiring', 'o:ref', 'o:deriv g 400.0 101325.0', 'o:jumpTb']),
+        # Cn evaluated at T0, another method selected, examined at exactly T0 (seeded change C07-12)
+        Case(['chem switch Ethanol l l 0 320.0 reset', 'o:deriv l 320.0 101325.0', 'wiring', 'o:ref', 'o:jumpTb']),
+        Case(['chem switch Water l g 1 400.0 noreset', 'o:deriv g 400.0 101325.0', 'o:ref']),
+        Case(['chem copy Ethanol l copy-reset B l 0 T0=330.0', 'o:deriv l 330.0 101325.0', 'wiring', 'o:jumpTb']),
         # Chemical.copy_models_from: explicit names and automatic mode (seeded change C07-10)
         Case(['chem cmf Water l Ethanol Cn', 'wiring', 'H l 340.0 101325.0', 'o:ref', 'o:deriv l 330.0 101325.0', 'o:deriv g 420.0 101325.0',
               'o:jumpTb', 'o:jumpTm']),
@@ -1530,6 +1598,8 @@ def corpus():
         Case(['mixupd Water,Ethanol g 400.0 101325.0 2.0,3.0 Tb+Tb+phase_ref 0 687.5704152 2.0']),
         Case(['mixupd Water,Ethanol l 330.0 101325.0 2.0,3.0 Tm+Hfus+Tb 0 -2630.0 0.5']),
         Case(['mixupd Water,Ethanol l 330.0 101325.0 2.0,3.0 cmf+cmf 1 500.0 2.0']),
+        Case(['mixupd Water,Ethanol l 330.0 101325.0 2.0,3.0 method 1 500.0 2.0']),
+        Case(['mixupd Water,Ethanol g 400.0 101325.0 2.0,3.0 methodR+method 0 500.0 2.0']),
         # the doctest composition of IdealEntropyModel
         Case(['mix Water,Ethanol l 350.0 101325.0 0.0,1.0 1.0,0.0 2.0']),
     ]
